@@ -456,6 +456,11 @@ def check_after_error(case):
     bad[n // 3: n // 3 + 8, 1] = 20.0  # one channel flat-lines for 8 samples: singular sample covariance there
     a = n // 3
     raising = {2: [a, a + 6], 3: [a, a + 3, a + 6], 4: [0, a + 1, a + 7, n]}[k]  # for k = 4 the *inner* part is flat
+    if k == 4 and n % 16 == 8:
+        # ... or the channel saturates on both sides of a burst: only the pooled *surroundings* are singular
+        bad[a: a + 10, 1] = 20.0
+        bad[a + 3: a + 7, 1] = good[a + 3: a + 7, 1]
+        raising = [a, a + 3, a + 7, a + 10]
     scorer = build_scorer(name)
     provoked = "no"
     if route.startswith("evaluate_raised"):
